@@ -133,7 +133,8 @@ Definition op_tlv (p : optparam) : res (list Z) :=
   | TyStr =>
     match op_val p with
     | TStr s =>
-      do val <- ascii_encode s;
+      (* C-Octet String tags: ASCII + NUL; Octet String tags: one octet per character (latin_1) *)
+      do val <- (if mem (op_tag p) tlv_cstring_tags_tlv then ascii_encode s else latin1_encode s);
       let val := if mem (op_tag p) tlv_cstring_tags_tlv then val ++ [0] else val in
       packH (op_tag p) +++ packH len +++ Ok val
     | _ => Err EXN_AttributeError
@@ -319,7 +320,7 @@ Fixpoint parse_tlvs (fuel : nat) (esm : Z) (codec : enc) (pdu : list Z) (plen : 
              parse_tlvs f esm codec pdu plen (index + Z.to_nat len) (acc ++ [{| op_tag := tag; op_val := TInt v |}]) payload
            | TyBool => parse_tlvs f esm codec pdu plen index (acc ++ [{| op_tag := tag; op_val := TBool true |}]) payload
            | TyStr =>
-             do s <- ascii_decode (slice_b pdu index (Z.to_nat len));
+             do s <- (if mem tag tlv_cstring_tags_tlv then ascii_decode (slice_b pdu index (Z.to_nat len)) else Ok (slice_b pdu index (Z.to_nat len)));
              let s := if mem tag tlv_cstring_tags_tlv then match rev s with 0 :: r => rev r | _ => s end else s in
              parse_tlvs f esm codec pdu plen (index + Z.to_nat len) (acc ++ [{| op_tag := tag; op_val := TStr s |}]) payload
            end
